@@ -49,12 +49,13 @@ LEAVES = {
     "I1": ("Identity", [], [1], RG.I2, 0.0),
     "PS0": ("PhaseShift", [2 * PI], [0], RG.PhaseShift(2 * PI), 2 * PI),
     "QFT01": ("QFT", [], [0, 1], _qft(2), PI),
+    "RX0s": ("RX", [2 * PI + G1], [0], RG.RX(2 * PI + G1), PI + G1 / 2),  # = -RX(g1): same hash as RX(g1) (angles hashed mod 2pi), different matrix
     # extra leaves (thorough / sub-alphabets)
     "T1": ("T", [], [1], RG.T, PI / 4),
     "RY1": ("RY", [A.G2], [1], RG.RY(A.G2), abs(A.G2) / 2),
     "CRX10": ("CRX", [G1], [1, 0], RG.controlled(RG.RX(G1)), G1 / 2),
 }
-LEAF_ALL = ["X0", "Y1", "Z0", "H1", "S0", "RX0", "RZ1", "CNOT01", "SWAP10", "Herm0", "I1", "PS0", "QFT01"]
+LEAF_ALL = ["X0", "Y1", "Z0", "H1", "S0", "RX0", "RZ1", "CNOT01", "SWAP10", "Herm0", "I1", "PS0", "QFT01", "RX0s"]
 LEAF6 = ["X0", "Y1", "S0", "RX0", "CNOT01", "Herm0"]
 LEAF4 = ["X0", "S0", "RX0", "CNOT01"]
 
